@@ -56,6 +56,22 @@ bool vhPlanAppend(TPlan plan, Probe& p, int region, int src) {
 	return ok;
 }
 
+// remove tasks while iterating: mode 0 first, 1 middle, 2 last, 3 all
+template <typename TPlan>
+static inline void planRemove(TPlan plan, Probe& p, int region, int mode, int src) {
+	int n = 0;
+	for (auto it = plan.begin(); it && n < 100000; ++it) ++n;
+	if (!n) return;
+	const int target = mode == 0 ? 0 : mode == 1 ? n / 2 : n - 1;
+	int i = 0;
+	for (auto it = plan.begin(); it && i < 100000; ++it, ++i) {
+		if (mode == 3 || i == target) {
+			Log& L = *p.log; L.tag('X'); L.i(region); L.i(i); L.i(transId(*it)); L.i(src); L.nl();
+			it.remove();
+		}
+	}
+}
+
 // dump one region's plan:  'J region n (origin dest kind id)*'; iteration is bounded so that a cyclic list is detected, not hung on
 template <typename TPlan>
 static inline void planDump(TPlan plan, Log& L, int region, int cap, char tag) {
